@@ -7,13 +7,14 @@ use deb822_lossless::{FromDeb822Paragraph, ToDeb822Paragraph};
 use serde_json::{json, Value};
 use std::str::FromStr;
 
-fn render_para(role: &str, present: &[usize], comment: bool) -> String {
+fn render_para(role: &str, present: &[usize], comment: bool, vs: usize) -> String {
     let mut t = String::new();
     if role == "neither" { return "X-Other: value\nX-More: v\n".into(); }
     let tab = table(role);
     let mut first = true;
-    for (i, (name, _m, v)) in tab.iter().enumerate() {
+    for (i, (name, _m, vals)) in tab.iter().enumerate() {
         if !present.contains(&(i + 1)) { continue; }
+        let v = vals[(vs.max(1) - 1).min(vals.len() - 1)];
         if comment && first && role != "copyright_header" { t.push_str("# a comment\n"); }
         let mut lines = v.split('\n');
         let l0 = lines.next().unwrap_or("");
@@ -28,10 +29,11 @@ fn render_para(role: &str, present: &[usize], comment: bool) -> String {
 pub fn render(case: &Value) -> String {
     let comments = case["comments"].as_bool().unwrap_or(false);
     let blanks = case["blanks"].as_u64().unwrap_or(1) as usize;
+    let vs = case["vs"].as_u64().unwrap_or(1) as usize;
     let mut parts = vec![];
     for p in case["paras"].as_array().unwrap() {
         let present: Vec<usize> = p["present"].as_array().map(|a| a.iter().map(|x| x.as_u64().unwrap() as usize).collect()).unwrap_or_default();
-        parts.push(render_para(p["role"].as_str().unwrap(), &present, comments));
+        parts.push(render_para(p["role"].as_str().unwrap(), &present, comments, vs));
     }
     let sep = if comments { format!("{}# between paragraphs\n{}", "\n".repeat(blanks), "\n") } else { "\n".repeat(blanks) };
     parts.join(&sep)
